@@ -281,6 +281,16 @@ func c13Gen(r *vfRand, i int, adv bool) *zz.In {
 		in.Reqs = zz.DefaultReqs(g, in.Kind, in.Doc)
 		return in
 	}
+	if !adv && i%9 == 4 {
+		// format-checked string leaves holding a valid value with surrounding white space (all leaves x 4 pads in rotation)
+		plan := zz.PadPlan()
+		k := i/9 + int(vfSeed()%1000)*41
+		it := plan[k%len(plan)]
+		in.Cat, in.Kind = it.Cat, it.Kind
+		in.Doc = g.GenPadDoc(it, 1+(k/len(plan))%4)
+		in.Reqs = zz.DefaultReqs(g, in.Kind, in.Doc)
+		return in
+	}
 	if !adv && i%5 == 2 {
 		// collections with a single blank entry: every (collection leaf, variant) pair in rotation
 		plan := zz.BlankPlan()
